@@ -1146,24 +1146,6 @@ Proof.
   cbn [ne_inv] in Hri. rewrite Ea in Hri. destruct Hri as (Hok & _ & Ht). exists a, l. auto.
 Qed.
 
-(** Get/Remove with the target of the sync cannot hit the slice bound *)
-Lemma target_not_bound P r t a l to ca :
-  rinv P -> P = r :: t -> r_hdrs r = a :: l ->
-  (target_in P to \/ (to <= h_height ca /\ all_gt (h_height ca) (ranges_all P))) ->
-  to <> h_height a + N.of_nat (length (a :: l)).
-Proof.
-  intros Hri EP Ea Ht.
-  destruct (first_run P r t Hri EP ltac:(rewrite Ea; discriminate)) as (a' & l' & Ea' & Hok & Hne).
-  rewrite Ea in Ea'. injection Ea' as <- <-.
-  pose proof (run_last r a l Ea Hok) as Hlast. cbn zeta in Hlast.
-  destruct Ht as [(x0 & Hx0 & <-)|[Hle Hag]].
-  - subst P. cbn in Hx0. rewrite Ea in Hx0. apply in_app_or in Hx0. destruct Hx0 as [Hx0|Hx0].
-    + destruct Hok as (Hc & _ & _). rewrite Ea in Hc. pose proof (consec_bounds a l Hc x0 Hx0). cbn [length] in *. lia.
-    + pose proof (ne_inv_lo _ _ Hne x0 Hx0). cbn [length] in *. lia.
-  - assert (Ha : In a (ranges_all P)) by (subst P; cbn; rewrite Ea; left; reflexivity).
-    specialize (Hag a Ha). cbn [length]. lia.
-Qed.
-
 Lemma step_get St ca P st tr from to :
   good ca -> rinv P -> pgood P -> Jl' St ca P st tr (LGet from to) ->
   match P with
@@ -1186,10 +1168,7 @@ Proof.
   - destruct (HB D eq_refl) as [H1 H2]. split; [exact A|]. split; [exact B|]. split; [exact C|]. split; assumption.
   - cbn [first_ne] in E.
     destruct (first_run _ r t Hri eq_refl E) as (a & l & Ea & Hok & Hne).
-    assert (Hnb : to <> h_height a + N.of_nat (length (a :: l))).
-    { apply (target_not_bound (r :: t) r t a l to ca Hri eq_refl Ea).
-      destruct D as [(_ & _ & D)|[_ D]]; [left; exact D|right; split; [exact D|exact B]]. }
-    destruct (get_remove_spec r a l Ea Hok to Hnb) as (g & r' & Hg & _ & Hsp & Hle & Hgt & _).
+    destruct (get_remove_spec r a l Ea Hok to) as (g & r' & Hg & _ & Hsp & Hle & Hgt & _).
     rewrite Hg.
     assert (Hall : ranges_all (r :: t) = g ++ r_hdrs r' ++ ranges_all t) by (cbn; rewrite Hsp, app_assoc; reflexivity).
     destruct g as [|h0 g'].
@@ -1238,9 +1217,7 @@ Proof.
   pose proof Hf as (r & EP & Hr & Hne & Hle & Hgt). subst P.
   assert (Hrne : r_hdrs r <> []) by (rewrite Hr; destruct hs; [contradiction|discriminate]).
   destruct (first_run _ r t0 Hri eq_refl Hrne) as (a & l & Ea & Hok & Hnei).
-  assert (Hnb : oto <> h_height a + N.of_nat (length (a :: l))).
-  { apply (target_not_bound (r :: t0) r t0 a l oto ca Hri eq_refl Ea). left. exact Ht. }
-  destruct (get_remove_spec r a l Ea Hok oto Hnb) as (g & r' & _ & Hrm & Hsp & Hgle & Hggt & Hok').
+  destruct (get_remove_spec r a l Ea Hok oto) as (g & r' & _ & Hrm & Hsp & Hgle & Hggt & Hok').
   rewrite Hrm.
   assert (Eu : hs = g /\ rest = r_hdrs r').
   { apply (split_unique oto); auto. rewrite <- Hr. exact Hsp. }
@@ -1560,7 +1537,7 @@ Proof.
   unfold l_step. destruct (c_loop c) as [| |p|from to|from to|k from to|k hs|k hs nh|k hs|oto lst|] eqn:Elp.
   - destruct (c_trig c); exact L.
   - destruct (ranges_head (c_pend c)); exact L.
-  - destruct (_ <=? _); exact L.
+  - destruct Hl as (A & B & C & D). pose proof (B p C) as Hp. destruct (N.leb_spec (h_height p) (h_height (c_cache c))); [lia|]. exact L.
   - destruct (ranges_first_spec _ Hri) as (_ & Eall & _ & _).
     assert (L' : H <= h_height (c_cache c) \/ exists y, In y (ranges_all (ranges_first (c_pend c))) /\ H <= h_height y)
       by (rewrite Eall; exact L).
@@ -1994,22 +1971,41 @@ Proof.
            end; cbn; try (exists []; reflexivity); apply Happ.
 Qed.
 
-(** ** the sync loop can hit the slice bound of headerRange.Get when a learner
-    call is preempted between setLocalHead's "already synced?" check and
-    pending.Add (model-level schedule; valid heads, honest getter) *)
+(** ** the slice expressions of Get / Remove / RemoveUpTo are never out of range:
+    no step of any goroutine, from any configuration, makes the loop panic *)
 Definition wch (n : N) : hdr := Hdr false 1 n (Z.of_N n) n (n - 1) true.
-Definition w_sched : list event :=
-  [ EGossip (wch 19) 100%Z (Bif [] false); ET 0; ET 0; ET 0; ET 0
-  ; EHead (Some (wch 20)); ET 1; ET 1; ET 1; ET 1; ET 1; ET 1; ET 1
-  ; EL GErr; EL GErr; EL GErr; EL GErr; EL GErr
-  ; EL (GList [wch 18; wch 19]); EL GErr; EL GErr; EL GErr; EL GErr; EL GErr; EL GErr; EL GErr; EL GErr
-  ; ET 0; ET 0
-  ; EL GErr; EL GErr; EL GErr; EL GErr; EL GErr ].
 
-Lemma interleaved_learner_panics :
-  c_loop (run 10%Z (fun _ _ => TVOk) (init_cfg 15 [wch 15; wch 16; wch 17]) w_sched) = LPanic.
-Proof. vm_compute. reflexivity. Qed.
+Lemma no_panic_step drift tv c e : c_loop c <> LPanic -> c_loop (step drift tv c e) <> LPanic.
+Proof.
+  intros Hn. destruct e as [h now b|a|a|i]; cbn [step]; try exact Hn.
+  - unfold l_step, l_finish, after_req, after_app.
+    destruct (c_loop c) as [| |p|from to|from to|k from to|k hs|k hs nh|k hs|oto lst|] eqn:Elp; try contradiction.
+    + destruct (c_trig c); cbn; [discriminate|rewrite Elp; discriminate].
+    + destruct (ranges_head (c_pend c)); cbn; discriminate.
+    + destruct (_ <=? _); [|cbn; discriminate].
+      destruct (remove_upto_total (h_height (c_cache c)) (c_pend c)) as (rs & ->). cbn. discriminate.
+    + destruct (ranges_first (c_pend c)); cbn; discriminate.
+    + destruct (c_pend c) as [|r t]; [cbn; discriminate|].
+      destruct (range_get_total to r) as (g & ->). destruct g as [|h0 g']; [cbn; discriminate|].
+      destruct (_ =? _); cbn; discriminate.
+    + destruct (_ <? _).
+      * destruct a as [|[|x l]]; cbn; try discriminate. destruct (_ =? _); cbn; discriminate.
+      * destruct k; cbn; discriminate.
+    + destruct (shim_check (c_cache c) hs); try (cbn; discriminate). destruct k; cbn; discriminate.
+    + cbn; discriminate.
+    + destruct k; cbn; discriminate.
+    + destruct (c_pend c) as [|r t]; [cbn; discriminate|].
+      destruct (range_remove_total oto r) as (r' & ->). cbn. discriminate.
+  - unfold t_step. destruct (nth_error (c_thr c) i) as [t|]; [|exact Hn].
+    replace (c_loop (t_body drift tv i t c)) with (c_loop c); [exact Hn|].
+    unfold t_body, enter, t_next, verdict, set_thr.
+    repeat match goal with
+           | |- context [match ?x with _ => _ end] => destruct x
+           end; reflexivity.
+Qed.
 
-Lemma interleaved_learner_panics_ex :
-  exists (c0 : cfg) (sched : list event), c_loop (run 10%Z (fun _ _ => TVOk) c0 sched) = LPanic.
-Proof. exists (init_cfg 15 [wch 15; wch 16; wch 17]), w_sched. exact interleaved_learner_panics. Qed.
+Lemma no_panic_run drift tv es : forall c, c_loop c <> LPanic -> c_loop (run drift tv c es) <> LPanic.
+Proof.
+  induction es as [|e es IH]; intros c Hn; [exact Hn|]. cbn [run fold_left]. apply IH. apply no_panic_step. exact Hn.
+Qed.
+
